@@ -315,6 +315,14 @@ func (e *env) genCase(idx int) (*Case, []byte) {
 			newClass = "random"
 			c.New = randID(r)
 		}
+		// commands naming the same ref carry distinct new values, so that the server's call log
+		// identifies which of them was applied (attribution of findings only)
+		for _, prev := range cs.Cmds {
+			if prev.Name == c.Name && prev.New == c.New && c.New != zero40 {
+				newClass = "unsent"
+				c.New = e.clientCommit(cli, gen.Pick(r, e.pool), fmt.Sprintf("c39 unsent-dup seed %d case %d cmd %d", e.c.Seed, idx, i))
+			}
+		}
 		if c.New == zero40 {
 			delete(model, c.Name)
 		} else {
@@ -439,7 +447,7 @@ type pending struct {
 
 func run(c *vf.Ctx) {
 	e := setup(c)
-	nCases := c.N(220, 4000)
+	nCases := c.N(220, 2000)
 	batch := 600
 	sampleEvery := c.N(10, 25)
 	var mu sync.Mutex
@@ -607,10 +615,10 @@ func run(c *vf.Ctx) {
 	tick("concurrent", t0)
 	c.Extra("phase_seconds_informational", phase)
 	c.Extra("git_invocations", gitx.Calls.Load())
-	c.Floor("requests", c.Counter("requests_gogit-mem")+c.Counter("requests_gogit-fs"), c.N(400, 8000))
-	c.Floor("git confirmations", c.Counter("git_confirmations"), c.N(25, 150))
-	c.Floor("ok report lines (updates really applied)", c.Counter("ok_lines"), c.N(100, 1500))
-	c.Floor("ng report lines (updates really refused)", c.Counter("ng_lines"), c.N(50, 800))
+	c.Floor("requests", c.Counter("requests_gogit-mem")+c.Counter("requests_gogit-fs"), c.N(400, 4000))
+	c.Floor("git confirmations", c.Counter("git_confirmations"), c.N(25, 100))
+	c.Floor("ok report lines (updates really applied)", c.Counter("ok_lines"), c.N(100, 1000))
+	c.Floor("ng report lines (updates really refused)", c.Counter("ng_lines"), c.N(50, 500))
 	c.Assume("the final reference state of filesystem repositories is read straight from loose ref files and packed-refs (git's on-disk format); object presence from loose files / version-2 pack indexes; both readers and the ref writer are validated against git (receive-pack advertisement, for-each-ref, cat-file --batch-check) in every confirmation step")
 	c.Assume("git confirmation: every violation key is replayed against real git receive-pack until confirmed 3 (quick) / 10 (thorough) times per run and storage kind; further hits of an already confirmed key are reported without a git run (process spawns are the bottleneck)")
 	c.Assume("a delete whose old id names no object of the repository is not judged for old-value equality: git itself skips the comparison there (builtin/receive-pack.c sets old_oid = NULL)")
